@@ -584,6 +584,7 @@ const prelude = `(set-logic ALL)
 (declare-fun str$ofbytes ((Array Int Int) Int Int) Str)
 (declare-fun str$tobytes (Str) (Array Int Int))
 (declare-fun str$ofint (Int) Str)
+(assert (forall ((s Str) (k Int)) (! (= (select (str$tobytes s) k) (str$at s k)) :pattern ((select (str$tobytes s) k))))) ;relax
 (declare-fun str$lt (Str Str) Bool)
 (declare-fun bit$and (Int Int) Int)
 (declare-fun bit$or (Int Int) Int)
